@@ -157,6 +157,12 @@ def explore(fn, assumptions=(), tally=None, max_paths=100000, timeout_ms=60000):
             out = fn(ctx)
         except Infeasible:
             continue
+        except Exception as e:
+            try:
+                e._kv_ctx = ctx      # lets a harness extract an input on which the real code raises
+            except Exception:
+                pass
+            raise
         finally:
             Ctx.cur = None
             S.ENV.side = None
@@ -300,6 +306,10 @@ class SymTensor(torch.Tensor):
             r = _getitem_symbolic_scalar_index(args[0], args[1])
             if r is not NotImplemented:
                 return r
+        if name == "__setitem__" and len(args) == 3:
+            r = _setitem_symbolic_scalar_index(args[0], args[1], args[2])
+            if r is not NotImplemented:
+                return r
         with torch._C.DisableTorchFunctionSubclass():
             return func(*args, **kwargs)
 
@@ -314,7 +324,7 @@ def _is_sym0d(k):
 def _getitem_symbolic_scalar_index(base, key):
     """x[i] with a 0-dim symbolic integer tensor i: torch would call int(i); keep it symbolic instead by
     indexing with i.reshape(1) and dropping the resulting unit dimension"""
-    keys = key if isinstance(key, tuple) else (key,)
+    keys = tuple(key) if isinstance(key, (tuple, list)) else (key,)
     if not any(_is_sym0d(k) for k in keys):
         return NotImplemented
     newkeys = []
@@ -329,6 +339,26 @@ def _getitem_symbolic_scalar_index(base, key):
             raise NotEncodable("symbolic scalar index mixed with slices")
     r = base[tuple(newkeys)]
     return r[0]
+
+
+def _setitem_symbolic_scalar_index(base, key, value):
+    """x[i0, .., ik, p] = v with a symbolic 0-dim last index p and concrete leading indices: written as a select over
+    every candidate position (torch itself would call int(p))"""
+    keys = tuple(key) if isinstance(key, (tuple, list)) else (key,)
+    if not any(_is_sym0d(k) for k in keys):
+        return NotImplemented
+    if any(_is_sym0d(k) for k in keys[:-1]) or not all(isinstance(k, int) or (isinstance(k, torch.Tensor) and k.dim() == 0) for k in keys[:-1]):
+        raise NotEncodable("symbolic scalar index in a non-final position of an assignment")
+    prefix = tuple(int(k) for k in keys[:-1])
+    p = keys[-1]
+    row = base[prefix] if prefix else base
+    n = row.shape[0]
+    for j in range(n):
+        cond = (p == j)
+        cur = row[j]
+        v = value if not isinstance(value, torch.Tensor) else value.reshape(cur.shape)
+        row[j] = torch.where(cond, v if isinstance(v, torch.Tensor) else torch.full_like(cur, v), cur)
+    return None
 
 
 def _item(t):
